@@ -9,6 +9,7 @@ package lang
 
 //@ spec func nl(s string, k int) int
 //@ axiom nl0: forall s string :: {nl(s, 0)} nl(s, 0) == 0
+//@ axiom nlnonneg: forall s string, k int :: {nl(s, k)} 0 <= nl(s, k)
 //@ axiom nlstep: forall s string, k int :: {nl(s, k+1)} 0 <= k && k < len(s) ==> nl(s, k+1) == nl(s, k) + (s[k] == '\n' ? 1 : 0)
 
 //@ spec func lineAt(src string, a int, srcLine string, line int) bool = 0 <= a && a + len(srcLine) <= len(src)
@@ -18,17 +19,26 @@ package lang
 //@   | && (forall k int :: a <= k && k < a + len(srcLine) ==> src[k] != '\n')
 //@   | && line == 1 + nl(src, a)
 
+// C12: a reported position is a 1-based line and a 0-based byte column inside (or just after) the quoted line.
+//@ spec func wfSynErr(e SyntaxError) bool = e.Line >= 1 && 0 <= e.Col && e.Col <= len(e.SrcLine)
+//@ spec func wfRTErr(e RuntimeError) bool = e.Line >= 1 && 0 <= e.Col && e.Col <= len(e.SrcLine)
+//@ typeinv SyntaxError wfSynErr
+//@ typeinv RuntimeError wfRTErr
+
 //@ func Lexer.GetLineAndCol [C12]
 //@   requires l != nil && 0 <= pos
 //@   ensures[C12] line-of-pos: pos < len(l.src) ==> lineAt(l.src, pos - result2, result0, result1)
 //@   ensures[C12] line-past-end: pos >= len(l.src) ==> lineAt(l.src, len(l.src) - len(result0), result0, result1)
 //@   ensures[C12] col-in-line: pos < len(l.src) && l.src[pos] != '\n' ==> 0 <= result2 && result2 < len(result0)
+//@   ensures[C12] col-is-a-byte-offset-into-the-line-or-its-end: 0 <= result2 && result2 <= len(result0) && result1 >= 1
+//@   ensures[C12] newline-belongs-to-the-line-it-ends: pos < len(l.src) && l.src[pos] == '\n' ==> result2 == len(result0)
+//@   ensures[C12] past-the-end-is-just-after-the-last-line: pos >= len(l.src) ==> result2 == len(result0)
 //@   modifies nothing
 //@   loop 0 invariant bounds: 0 <= i && i <= len(l.src) && 0 <= lineStart && lineStart <= i
 //@   loop 0 invariant linestart: lineStart == 0 || l.src[lineStart-1] == '\n'
 //@   loop 0 invariant nonl: forall k int :: lineStart <= k && k < i ==> l.src[k] != '\n'
 //@   loop 0 invariant line: line == 1 + nl(l.src, lineStart) && nl(l.src, i) == nl(l.src, lineStart)
-//@   loop 0 invariant inline: (inLine <==> pos < i) && (inLine ==> col == pos - lineStart && lineStart <= pos + 1) && (!inLine ==> col == 1)
+//@   loop 0 invariant inline: (inLine <==> pos < i) && (inLine ==> col == pos - lineStart && lineStart <= pos) && (!inLine ==> col == 1)
 
 // ---------------------------------------------------------------- C13: lexical layer
 
@@ -356,7 +366,9 @@ package lang
 
 //@ spec func frameOK(f *stackFrame) bool = f != nil && f.locals != nil && f.depth >= 0
 // ruleRoot ($) is bound by the drivers before any rule, function or selector runs.
-//@ spec func evOK(e *Evaluator) bool = e != nil && e.lexer != nil && frameOK(e.stackTop) && e.ruleRoot != nil
+// evalDepth counts the evaluation steps (expressions and statements) in progress; C20: it never exceeds the
+// limit, so the Go stack is bounded whatever the shape of the recursion.
+//@ spec func evOK(e *Evaluator) bool = e != nil && e.lexer != nil && frameOK(e.stackTop) && e.ruleRoot != nil && 0 <= e.evalDepth && e.evalDepth <= evalDepthLimit
 
 //@ func Evaluator.pushFrame [C08,C20]
 //@   requires e != nil && (e.stackTop != nil ==> e.stackTop.depth >= 0) && !$faulted
@@ -482,7 +494,8 @@ package lang
 //@   modifies nothing
 
 //@ func Evaluator.evalExpr [C01,C07,C08,C11,C13,C15,C19,C20]
-//@   modifies valueHeap, e.stackTop, e.returnVal
+//@   modifies valueHeap, e.stackTop, e.returnVal, e.evalDepth
+//@   ensures[C20] depth-restored: e.evalDepth == old(e.evalDepth)
 //@   requires evOK(e) && expr != nil && !$faulted
 //@   updates $faulted, $out
 //@   ensures[C01] result-or-error: err == nil ==> result0 != nil
@@ -511,19 +524,20 @@ package lang
 //@   ensures[C19] block-body-yields-null: err == nil && istype(expr, *ExprMatch) && $ranBlock ==> result0.Value.Tag == ValueNil && fresh(result0)
 //@   ensures[C19] no-match-yields-null: err == nil && istype(expr, *ExprMatch) && $nmatch == 0 ==> result0.Value.Tag == ValueNil && fresh(result0)
 //@   ensures[C19] expression-body-yields-its-value: err == nil && istype(expr, *ExprMatch) && $nmatch == 1 && !$ranBlock ==> result0 == $lastCell
-//@   loop 1 invariant protocol: evInv(e, old(e.stackTop)) && $nmatch == 0 && !$ranBlock
-//@   loop 2 invariant in-match-frame: evOK(e) && e.stackTop == $frame && $frame.parent == old(e.stackTop) && !$faulted && $nmatch == 1 && !$ranBlock
-//@   loop 3 invariant protocol: evInv(e, old(e.stackTop)) && obj.Obj != nil && *obj.Obj != nil
+//@   loop 1 invariant protocol: evInv(e, old(e.stackTop)) && $nmatch == 0 && !$ranBlock && e.evalDepth == old(e.evalDepth) + 1
+//@   loop 2 invariant in-match-frame: evOK(e) && e.stackTop == $frame && $frame.parent == old(e.stackTop) && !$faulted && $nmatch == 1 && !$ranBlock && e.evalDepth == old(e.evalDepth) + 1
+//@   loop 3 invariant protocol: evInv(e, old(e.stackTop)) && obj.Obj != nil && *obj.Obj != nil && e.evalDepth == old(e.evalDepth) + 1
 
 //@ func Evaluator.evalStatement [C01,C07,C08,C10,C11]
-//@   modifies valueHeap, e.stackTop, e.returnVal
+//@   modifies valueHeap, e.stackTop, e.returnVal, e.evalDepth
+//@   ensures[C20] depth-restored: e.evalDepth == old(e.evalDepth)
 //@   requires evOK(e) && stmt != nil && !$faulted
 //@   updates $faulted, $out
 //@   ensures[C01] errkind: result == nil || isRT(result) || isFlow(result)
 //@   ensures[C08] stack-restored: stackKept(e, old(e.stackTop), result)
 //@   ensures[C11] fault-latched: $faulted <==> isFault(result)
 //@   ensures evok: evOK(e)
-//@   ensures[C07,C08] bare-return-clears-the-return-slot: istype(stmt, *StatementReturn) && as(stmt, *StatementReturn).Expr == nil ==> result == errReturn && e.returnVal == nil
+//@   ensures[C07,C08] bare-return-clears-the-return-slot: istype(stmt, *StatementReturn) && as(stmt, *StatementReturn).Expr == nil ==> (result == errReturn && e.returnVal == nil) || isRT(result)
 //@   ensures[C07,C08] return-signals: istype(stmt, *StatementReturn) && result == nil ==> false
 //@   init $lastOut = nil
 //@   after Evaluator.evalExpr: $lastTruthy = (ret1 == nil ? specTruthy(ret0.Value) : false)
@@ -534,18 +548,19 @@ package lang
 //@   assert[C07] for-body-follows-a-true-condition: istype(stmt, *StatementFor) ==> arg1 == as(stmt, *StatementFor).Body && $lastExprArg == as(stmt, *StatementFor).Expr && $lastTruthy @ Evaluator.evalStatement
 //@   assert[C07] for-post-runs-only-after-a-completed-or-continued-iteration: istype(stmt, *StatementFor) && arg1 == as(stmt, *StatementFor).PostExpr && arg1 != as(stmt, *StatementFor).PreExpr && arg1 != as(stmt, *StatementFor).Expr ==> $lastOut == nil || $lastOut == errContinue @ Evaluator.evalExpr
 //@   assert[C07] loop-continues-only-after-a-completed-or-continued-iteration: (istype(stmt, *StatementWhile) || istype(stmt, *StatementFor)) ==> $lastOut == nil || $lastOut == errContinue @ Evaluator.evalExpr
-//@   loop 0 invariant protocol: evInv(e, old(e.stackTop))
-//@   loop 1 invariant protocol: evInv(e, old(e.stackTop))
-//@   loop 2 invariant protocol: evInv(e, old(e.stackTop)) && ($lastOut == nil || $lastOut == errContinue)
-//@   loop 3 invariant protocol: evInv(e, old(e.stackTop)) && ($lastOut == nil || $lastOut == errContinue)
-//@   loop 4 invariant protocol: evInv(e, old(e.stackTop))
-//@   loop 5 invariant protocol: evInv(e, old(e.stackTop)) && fresh(keys)
-//@   loop 6 invariant protocol: evInv(e, old(e.stackTop))
+//@   loop 0 invariant protocol: evInv(e, old(e.stackTop)) && e.evalDepth == old(e.evalDepth) + 1
+//@   loop 1 invariant protocol: evInv(e, old(e.stackTop)) && e.evalDepth == old(e.evalDepth) + 1
+//@   loop 2 invariant protocol: evInv(e, old(e.stackTop)) && ($lastOut == nil || $lastOut == errContinue) && e.evalDepth == old(e.evalDepth) + 1
+//@   loop 3 invariant protocol: evInv(e, old(e.stackTop)) && ($lastOut == nil || $lastOut == errContinue) && e.evalDepth == old(e.evalDepth) + 1
+//@   loop 4 invariant protocol: evInv(e, old(e.stackTop)) && e.evalDepth == old(e.evalDepth) + 1
+//@   loop 5 invariant protocol: evInv(e, old(e.stackTop)) && fresh(keys) && e.evalDepth == old(e.evalDepth) + 1
+//@   loop 6 invariant protocol: evInv(e, old(e.stackTop)) && e.evalDepth == old(e.evalDepth) + 1
 //@   loop 6 invariant[C07,C10] object-keys-visited-in-sorted-order: forall i int, j int :: 0 <= i && i < j && j < len(keys) ==> scmpS(keys[i], keys[j]) <= 0
-//@   loop 7 invariant protocol: evInv(e, old(e.stackTop))
+//@   loop 7 invariant protocol: evInv(e, old(e.stackTop)) && e.evalDepth == old(e.evalDepth) + 1
 
 //@ func Evaluator.evalExprList [C01,C08,C09,C11]
-//@   modifies valueHeap, e.stackTop, e.returnVal
+//@   modifies valueHeap, e.stackTop, e.returnVal, e.evalDepth
+//@   ensures[C20] depth-restored: e.evalDepth == old(e.evalDepth)
 //@   requires evOK(e) && !$faulted
 //@   updates $faulted, $out
 //@   ensures[C01] all-cells: err == nil ==> len(result0) == len(exprs)
@@ -555,12 +570,13 @@ package lang
 //@   ensures evok: evOK(e)
 
 //@   ensures[C09] copies-live-in-fresh-cells: err == nil && copy ==> (forall k int :: 0 <= k && k < len(result0) ==> fresh(result0[k]))
-//@   loop 0 invariant own-list: fresh(evaledExprs)
+//@   loop 0 invariant own-list: fresh(evaledExprs) && e.evalDepth == old(e.evalDepth)
 //@   loop 0 invariant[C09] copies-so-far-fresh: copy ==> (forall k int :: 0 <= k && k <= rangeindex ==> fresh(evaledExprs[k]))
 //@   loop 0 invariant protocol: evInv(e, old(e.stackTop)) && len(evaledExprs) == rangeindex + 1
 
 //@ func Evaluator.evalUnaryExpr [C01,C05,C08,C11]
-//@   modifies valueHeap, e.stackTop, e.returnVal
+//@   modifies valueHeap, e.stackTop, e.returnVal, e.evalDepth
+//@   ensures[C20] depth-restored: e.evalDepth == old(e.evalDepth)
 //@   requires evOK(e) && expr != nil && !$faulted
 //@   updates $faulted, $out
 //@   ensures[C01] result-or-error: err == nil ==> result0 != nil
@@ -588,7 +604,8 @@ package lang
 // is made by a callee (evalAssignment for =, the operand evaluations, method calls).
 //@ func Evaluator.evalBinaryExpr [C01,C05,C08,C09,C11]
 //@   storesonly[C09] operators-store-nothing-but-the-receiver-link: fresh, Value.Binding
-//@   modifies valueHeap, e.stackTop, e.returnVal
+//@   modifies valueHeap, e.stackTop, e.returnVal, e.evalDepth
+//@   ensures[C20] depth-restored: e.evalDepth == old(e.evalDepth)
 //@   requires evOK(e) && expr != nil && !$faulted
 //@   updates $faulted, $out
 //@   ensures[C01] result-or-error: err == nil ==> result0 != nil
@@ -636,13 +653,16 @@ package lang
 
 // C12 (the reported position falls inside the offending construct): every fault callFunction raises
 // itself is reported at the call expression, not at the callee's declaration.
+// A returned value is the returned cell's value, detached from the place it was read from (C09).
+//@ spec func sameValueDetached(a Value, b Value) bool = a.Tag == b.Tag && a.Str == b.Str && a.Num == b.Num && a.Bool == b.Bool && a.Array == b.Array && a.Obj == b.Obj && a.NativeFn == b.NativeFn && a.Fn == b.Fn && a.Proto == b.Proto && a.Binding == b.Binding && a.ParentObj == nil
 //@ ghost $callTok Token
 //@ func ExprCall.Token [C12]
 //@   requires expr != nil
 //@   ensures tokOKT(result)
 //@   pure
 //@ func Evaluator.callFunction [C01,C02,C07,C08,C11,C12,C20]
-//@   modifies valueHeap, e.stackTop, e.returnVal
+//@   modifies valueHeap, e.stackTop, e.returnVal, e.evalDepth
+//@   ensures[C20] depth-restored: e.evalDepth == old(e.evalDepth)
 //@   requires evOK(e) && exp != nil && fn != nil && !$faulted
 //@   updates $faulted, $out
 //@   ensures[C01] result-or-error: err == nil ==> result0 != nil
@@ -661,30 +681,32 @@ package lang
 //@   after Evaluator.evalStatement: $retVal = e.returnVal
 //@   ensures[C07,C08] no-return-statement-yields-null: fn.Value.Tag == ValueFn && err == nil && $bodyRan && $bodyOut != errReturn ==> result0.Value.Tag == ValueNil && fresh(result0)
 //@   ensures[C07,C08] return-without-value-yields-null: fn.Value.Tag == ValueFn && err == nil && $bodyRan && $bodyOut == errReturn && $retVal == nil ==> result0.Value.Tag == ValueNil && fresh(result0)
-//@   ensures[C07,C08] return-value-is-yielded: fn.Value.Tag == ValueFn && err == nil && $bodyRan && $bodyOut == errReturn && $retVal != nil ==> fresh(result0) && result0.Value == *$retVal
+//@   ensures[C07,C08] return-value-is-yielded: fn.Value.Tag == ValueFn && err == nil && $bodyRan && $bodyOut == errReturn && $retVal != nil ==> fresh(result0) && sameValueDetached(result0.Value, *$retVal)
 //@   ensures[C07,C08] other-outcomes-propagate: fn.Value.Tag == ValueFn && $bodyRan && $bodyOut != nil && $bodyOut != errReturn ==> err == $bodyOut
 //@   assert[C08] body-runs-in-a-fresh-frame: e.stackTop == $frame && fresh(e.stackTop) && arg1 == fn.Value.Fn.Body @ Evaluator.evalStatement
-//@   loop 0 invariant protocol: evOK(e) && e.stackTop == $frame && $frame.parent == old(e.stackTop) && !$faulted && !$bodyRan
+//@   loop 0 invariant protocol: evOK(e) && e.stackTop == $frame && $frame.parent == old(e.stackTop) && !$faulted && !$bodyRan && e.evalDepth == old(e.evalDepth)
 //@   loop 0 invariant[C08] parameters-bound-by-position: forall k int :: 0 <= k && k <= rangeindex ==> has($frame.locals, fn.Value.Fn.Args[k]) && fresh($frame.locals[fn.Value.Fn.Args[k]])
 
 //@ ghost $eqSeen bool
 //@ ghost $failMark int
 //@ ghost $lit *Cell
 //@ func Evaluator.evalCaseMatch [C01,C08,C11,C19]
-//@   modifies valueHeap, e.stackTop, e.returnVal
+//@   modifies valueHeap, e.stackTop, e.returnVal, e.evalDepth
+//@   ensures[C20] depth-restored: e.evalDepth == old(e.evalDepth)
 //@   requires evOK(e) && value != nil && !$faulted
 //@   init $eqSeen = false
 //@   init $failMark = 0
 //@   after Evaluator.evalCaseMatch: $failMark = (ret0 ? $failMark : $alloc)
+//@   exit[C09,C19] identifier-binds-a-copy-not-the-matched-cell: err == nil && result0 && istype(expr, *ExprIdentifier) && value.Value.Tag != ValueFn && value.Value.Tag != ValueNativeFn ==> has(result1, ident) && fresh(result1[ident]) && result1[ident].Value.Tag == value.Value.Tag
 //@   exit[C08,C19] bindings-come-from-the-matching-alternative-only: err == nil && result0 && result1 != nil ==> newerThan(result1, $failMark)
 //@   after Evaluator.evalExpr: $lit = ret0
 //@   after Value.Equals: $eqSeen = $eqSeen || (ret1 == nil && ret0)
 //@   assert[C19] literal-is-compared-with-the-subject-by-equality: arg0 == &value.Value && arg1 == &$lit.Value @ Value.Equals
 //@   ensures[C19] equal-literal-matches: err == nil && $eqSeen ==> result0
 //@   exit[C19] every-alternative-tried-before-failing: err == nil && !result0 ==> rangeindex#0 >= len(exprs)
-//@   loop 0 invariant protocol: evInv(e, old(e.stackTop)) && !$eqSeen && $failMark <= $alloc
-//@   loop 1 invariant protocol: evInv(e, old(e.stackTop)) && !$eqSeen && $failMark <= $alloc && newerThan(bindings, $failMark)
-//@   loop 2 invariant protocol: evInv(e, old(e.stackTop)) && !$eqSeen && $failMark <= $alloc && newerThan(bindings, $failMark)
+//@   loop 0 invariant protocol: evInv(e, old(e.stackTop)) && !$eqSeen && $failMark <= $alloc && e.evalDepth == old(e.evalDepth)
+//@   loop 1 invariant protocol: evInv(e, old(e.stackTop)) && !$eqSeen && $failMark <= $alloc && newerThan(bindings, $failMark) && e.evalDepth == old(e.evalDepth)
+//@   loop 2 invariant protocol: evInv(e, old(e.stackTop)) && !$eqSeen && $failMark <= $alloc && newerThan(bindings, $failMark) && e.evalDepth == old(e.evalDepth)
 //@   updates $faulted, $out
 //@   ensures[C01] errkind: err == nil || isRT(err) || isFlow(err)
 //@   ensures[C08] stack-restored: stackKept(e, old(e.stackTop), err)
@@ -838,13 +860,14 @@ package lang
 //@   requires lexer != nil && !$faulted
 //@   updates nothing
 //@   modifies nothing
-//@   ensures[C01] ready: result.lexer == lexer && frameOK(result.stackTop) && result.stackTop.parent == nil && result.ruleRoot == nil && result.root == nil
+//@   ensures[C01] ready: result.lexer == lexer && frameOK(result.stackTop) && result.stackTop.parent == nil && result.ruleRoot == nil && result.root == nil && result.evalDepth == 0
 //@   ensures[C11] no-fault: !$faulted
 //@   ensures[C02] rules-partitioned-by-kind: listKind(result.beginRules, BeginRule) && listKind(result.beginFileRules, BeginFileRule) && listKind(result.endRules, EndRule) && listKind(result.endFileRules, EndFileRule) && listKind(result.patternRules, PatternRule)
 
 //@ ghost $sawNext bool
 //@ func Evaluator.evalRules [C01,C02,C07,C08,C11]
-//@   modifies valueHeap, e.stackTop, e.returnVal
+//@   modifies valueHeap, e.stackTop, e.returnVal, e.evalDepth
+//@   ensures[C20] depth-restored: e.evalDepth == old(e.evalDepth)
 //@   requires evOK(e) && !$faulted
 //@   updates $faulted, $out
 //@   ensures[C01] errkind: result == nil || isRT(result) || isFlow(result)
@@ -861,11 +884,12 @@ package lang
 //@   assert[C02,C07] no-body-run-after-next: !$sawNext @ Evaluator.evalStatement
 //@   assert[C02] pattern-is-the-rules-own: arg1 == rule.Pattern && rule.Pattern != nil @ Evaluator.evalExpr
 //@   assert[C02] body-runs-iff-pattern-absent-or-truthy: arg1 == rule.Body && (rule.Pattern == nil || ($lastExprArg == rule.Pattern && $lastTruthy)) @ Evaluator.evalStatement
-//@   loop 0 invariant protocol: evInv(e, old(e.stackTop)) && e.ruleRoot == old(e.ruleRoot) && !$sawNext
+//@   loop 0 invariant protocol: evInv(e, old(e.stackTop)) && e.ruleRoot == old(e.ruleRoot) && !$sawNext && e.evalDepth == old(e.evalDepth)
 
 //@ func Evaluator.evalPatternRules [C01,C02,C08,C11]
-//@   modifies valueHeap, e.stackTop, e.returnVal, e.ruleRoot
-//@   requires e != nil && e.lexer != nil && frameOK(e.stackTop) && !$faulted
+//@   modifies valueHeap, e.stackTop, e.returnVal, e.evalDepth, e.ruleRoot
+//@   ensures[C20] depth-restored: e.evalDepth == old(e.evalDepth)
+//@   requires e != nil && e.lexer != nil && frameOK(e.stackTop) && 0 <= e.evalDepth && e.evalDepth <= evalDepthLimit && !$faulted
 //@   updates $faulted, $out
 //@   ensures[C01] errkind: result == nil || isRT(result) || isFlow(result)
 //@   ensures[C01,C02] next-consumed: result != errNext
@@ -873,7 +897,7 @@ package lang
 //@   ensures[C11] fault-latched: $faulted <==> isFault(result)
 //@   assert?[C02] array-element-is-bound-with-its-index: old(e.root.Value.Tag) == ValueArray && e.ruleRoot == item && e.ruleRoot == old(e.root.Value.Array)[i] && has(e.stackTop.locals, "$index") && e.stackTop.locals["$index"].Value.Tag == ValueNum && same(*e.stackTop.locals["$index"].Value.Num, numOf(i)) && arg1 == patternRules @ Evaluator.evalRules
 //@   assert[C02] whole-root-otherwise: old(e.root.Value.Tag) != ValueArray ==> e.ruleRoot == e.root && arg1 == patternRules @ Evaluator.evalRules
-//@   loop 0 invariant protocol: e != nil && e.lexer != nil && frameOK(e.stackTop) && e.stackTop == old(e.stackTop) && !$faulted && e.root == old(e.root)
+//@   loop 0 invariant protocol: e != nil && e.lexer != nil && frameOK(e.stackTop) && e.stackTop == old(e.stackTop) && !$faulted && e.root == old(e.root) && e.evalDepth == old(e.evalDepth)
 
 //@ func EvalExpression [C01,C11]
 //@   modifies valueHeap
@@ -894,7 +918,7 @@ package lang
 // Parser.statement, loopBody, parseFunction) composed with the evaluator's consumption points by
 // lemma L1 (DESIGN.md section 5).  next and exit are proved consumed.
 //@ spec func isScopedFlow(err error) bool = err == errBreak || err == errContinue || err == errReturn
-//@ spec func drvOK(e *Evaluator) bool = e != nil && e.lexer != nil && frameOK(e.stackTop)
+//@ spec func drvOK(e *Evaluator) bool = e != nil && e.lexer != nil && frameOK(e.stackTop) && e.evalDepth == 0 && 0 < evalDepthLimit
 //@ func EvalProgram [C01,C02,C03,C11,C14]
 //@   requires !$faulted
 //@   updates $faulted, $out
